@@ -8,9 +8,11 @@ open LemoModel LemoModel.Validator LemoModel.Sched LemoGen.Schedule LemoGen.TxWi
 
 /-! ### GetCorrectMiner: the three outcomes -/
 
-theorem gcm_panic_iff (mt T : Int) (pts : Nat) (n : Int) (ph pm : Nat) :
+/-- since fix 26f228d (`return ErrSmallerMineTime` instead of `panic("mineTime should be milliseconds")`)
+    the generated arithmetic has no panic branch at all -/
+theorem gcm_not_panic (mt T : Int) (pts : Nat) (n : Int) (ph pm : Nat) :
     GetCorrectMiner (mineTime := mt) (mineTimeout := T) (parent_Time := pts) (nodeCount := n)
-      (parent_Height := ph) (parent_MinerAddress := pm) = .panic ↔ mt < 10000000000 := by
+      (parent_Height := ph) (parent_MinerAddress := pm) ≠ .panic := by
   unfold GetCorrectMiner
   by_cases h1 : mt < 10000000000
   · simp [h1]
@@ -18,15 +20,16 @@ theorem gcm_panic_iff (mt T : Int) (pts : Nat) (n : Int) (ph pm : Nat) :
     · simp [h1, h2]
     · simp [h1, h2]
 
+/-- both a stamp below 10^10 ms and a stamp before the parent's give an error -/
 theorem gcm_err_iff (mt T : Int) (pts : Nat) (n : Int) (ph pm : Nat) :
     (∃ e, GetCorrectMiner (mineTime := mt) (mineTimeout := T) (parent_Time := pts) (nodeCount := n)
       (parent_Height := ph) (parent_MinerAddress := pm) = .err e) ↔
-      (10000000000 ≤ mt ∧ mt < (pts : Int) * 1000) := by
+      (mt < 10000000000 ∨ mt < (pts : Int) * 1000) := by
   unfold GetCorrectMiner
   by_cases h1 : mt < 10000000000
   · simp [h1]
   · by_cases h2 : mt < (pts : Int) * 1000
-    · simp [h1, h2]; omega
+    · simp [h1, h2]
     · simp [h1, h2]
 
 theorem gcm_ok_iff (mt T : Int) (pts : Nat) (n : Int) (ph pm : Nat) :
